@@ -28,6 +28,9 @@ for d in sorted((V / "seeded").iterdir()):
         log = (V / ".work/seedlogs" / ("all_%s.log" % d.name)).read_text()
         lines = [l.split("replay=")[1].split("/")[-1] for l in log.splitlines() if l.startswith("VIOLATION")][:8]
         new = "no" if nv == 0 else ("weak" if nc == 0 else "yes")
+        dm = re.search(r"demo_exit=(\d+)", s)
+        if nv == 0 and dm and dm.group(1) == "0":
+            new = "neutralised"     # the patch still applies but its demonstration passes: a later fix: commit made the change harmless
     meta["latest_evaluation"] = {"repo_head": head, "summary": s, "violation_lines": lines}
     if new != old:
         meta.setdefault("history", []).append({"detected": old, "caught_by": meta.get("caught_by")})
